@@ -1,4 +1,4 @@
-package main
+package c14facts
 
 // Operand facts of RSAPad / DecodeRSAPad: which named byte string enters each hash, xor, cipher,
 // concatenation and slice, in source order.  The Lean model INTERPRETS these lists (Model/C14.lean),
